@@ -13,6 +13,7 @@ import (
 	"verifharness/desc"
 	"verifharness/driver"
 	"verifharness/gen"
+	"verifharness/oracle"
 	"verifharness/pipe"
 	"verifharness/run"
 	"verifharness/static"
@@ -123,6 +124,7 @@ func batchCmd(args []string) {
 	}
 	ioutil.WriteFile(filepath.Join(*work, "x_terraform.go.txt"), []byte(b.TfFile), 0o644)
 	writeJSON(filepath.Join(*work, "static.json"), static.Parse(b.TfFile, lic))
+	writeJSON(filepath.Join(*work, "oracle.json"), oracle.Schemas(c, rootsOf(c)))
 	if *noExec {
 		status["stage"] = "static"
 		return
@@ -202,6 +204,29 @@ func pluginOnlyCmd(args []string) {
 	if bt.TfFile != "" {
 		ioutil.WriteFile(filepath.Join(*work, "x_terraform.go.txt"), []byte(bt.TfFile), 0o644)
 		writeJSON(filepath.Join(*work, "static.json"), static.Parse(bt.TfFile, lic))
+		writeJSON(filepath.Join(*work, "oracle.json"), oracle.Schemas(&c, rootsOf(&c)))
 	}
 	fmt.Println("ok")
+}
+
+// rootsOf: the selected types (command line over YAML, '+'-separated) that are messages of the file to generate.
+func rootsOf(c *desc.Case) []string {
+	var types []string
+	if c.Yaml != nil {
+		types = c.Yaml.Types
+	}
+	for _, kv := range c.Cli {
+		if kv.K == "types" && strings.TrimSpace(kv.V) != "" {
+			types = strings.Split(strings.TrimSpace(kv.V), "+")
+		}
+	}
+	var out []string
+	for _, t := range types {
+		for _, m := range c.Request.File.Messages {
+			if m.Name == t {
+				out = append(out, t)
+			}
+		}
+	}
+	return out
 }
